@@ -309,6 +309,8 @@ namespace bloch::runtime {
         RuntimeTypeInfo typeInfoFromAst(
             Type* type, const std::unordered_map<std::string, RuntimeTypeInfo>& subst) const;
         Value defaultValueForField(const RuntimeField& field, const std::string& ownerLabel);
+        void stampStaticClass(Value& v, const RuntimeTypeInfo& declared) const;
+        void stampStaticClass(Value& v, Type* declared, const RuntimeClass* genericCtx) const;
         void buildClassTable(Program& program);
         RuntimeClass* findClass(const std::string& name) const;
         RuntimeClass* instantiateGeneric(const NamedType* typeNode);
